@@ -46,6 +46,19 @@ impl WithAlias for Imp {
     fn aliased(&self, a: u64) -> Res<u64> { self.tick(); if self.ok { Ok(self.val ^ a) } else { Err(self.err()) } }
     fn aliased_plain(&self, a: u64) -> Res<u64> { self.tick(); if self.ok { Ok(self.val ^ a) } else { Err(self.err()) } }
 }
+/// trait-level marker AND a method-level marker naming a different result alias: the method-level
+/// one decides for that method
+#[cglue_trait]
+#[int_result]
+pub trait Mixed {
+    fn plain_marked(&self, a: u64) -> Result<u64, Code>;
+    #[int_result(Res)]
+    fn alias_marked(&self, a: u64) -> Res<u64>;
+}
+impl Mixed for Imp {
+    fn plain_marked(&self, a: u64) -> Result<u64, Code> { self.tick(); if self.ok { Ok(self.val ^ a) } else { Err(self.err()) } }
+    fn alias_marked(&self, a: u64) -> Res<u64> { self.tick(); if self.ok { Ok(self.val ^ a) } else { Err(self.err()) } }
+}
 /// per-method opt-in
 #[cglue_trait]
 pub trait PerMethod {
